@@ -51,7 +51,7 @@ def run(c):
 
     # ---- numerical half -------------------------------------------------------------
     cfgs = hydrolib.tlc_configs(rd, 3, 12)
-    nrun = 20 if tier == "quick" else 400
+    nrun = 20 if tier == "quick" else 1500
     sample = hydrolib.corner_sample(cfgs, rng, nrun) if tier == "quick" else [rng.choice(cfgs) for _ in range(nrun)]
     gammas = [1.0001, 1.4, 5. / 3., 2.0]
     shapes = [((1.0, 1.0, 1.0), (0., 0., 0.)), ((1.0, 1.5, 0.8), (0.3, -1.7, 2.9)), ((0.7, 0.7, 0.7), (0., 0., 0.))]
@@ -66,7 +66,7 @@ def run(c):
 
     # external point-mass gravity (a source term: only the "states stay physical" clause applies).  The mass is large
     # enough that the gravity kick on gas moving away from it exceeds the energy of a cell within one step
-    for j in range(2 if tier == "quick" else 24):
+    for j in range(2 if tier == "quick" else 80):
         plan.append(dict(k=len(plan), n=[(2, 2, 2), (1, 2, 3)][j % 2], per=(0, 0, 0), gamma=gammas[(j + 2) % 4], side=(1.0, 1.0, 1.0),
                          anchor=(0., 0., 0.), kind="contrast", threads=[1, 4][j % 2], cfl=0.2, seed=rng.randrange(1, 10 ** 6),
                          gravity=[3.0e19, 1.0e20][j % 2]))
